@@ -46,7 +46,7 @@ pub fn search_upstream_hgignore(hgignore_filters: &mut Vec<HgignoreFilter>, dir:
 fn update_hgignore_filters(hgignore_filters: &mut Vec<HgignoreFilter>, path: &Path) {
     let hgignore_file = path.join(".hgignore");
     if hgignore_file.is_file() {
-        let mut regexes = parse_hgignore(&hgignore_file, &path);
+        let mut regexes = parse_hgignore(&hgignore_file, &path, &mut vec![]);
         match regexes {
             Ok(ref mut regexes) => {
                 hgignore_filters.append(regexes);
@@ -94,9 +94,20 @@ impl Syntax {
     }
 }
 
-fn parse_hgignore(file_path: &Path, dir_path: &Path) -> Result<Vec<HgignoreFilter>, String> {
+fn parse_hgignore(
+    file_path: &Path,
+    dir_path: &Path,
+    being_read: &mut Vec<std::path::PathBuf>,
+) -> Result<Vec<HgignoreFilter>, String> {
     let mut result = vec![];
     let mut err = String::new();
+
+    // files that include each other (or themselves) must not be followed for ever
+    let canonical_path = std::fs::canonicalize(file_path).unwrap_or_else(|_| file_path.to_path_buf());
+    if being_read.contains(&canonical_path) {
+        return Err(format!("{} includes itself", file_path.to_string_lossy()));
+    }
+    being_read.push(canonical_path);
 
     if let Ok(file) = File::open(file_path) {
         let mut syntax = Syntax::Regexp;
@@ -122,7 +133,7 @@ fn parse_hgignore(file_path: &Path, dir_path: &Path) -> Result<Vec<HgignoreFilte
                             } else if line.starts_with("subinclude:") {
                                 let include = line.replace("subinclude:", "");
                                 let mut parse_result =
-                                    parse_hgignore(&Path::new(&include), dir_path);
+                                    parse_hgignore(&Path::new(&include), dir_path, being_read);
                                 match parse_result {
                                     Ok(ref mut filters) => {
                                         result.append(filters);
@@ -161,6 +172,8 @@ fn parse_hgignore(file_path: &Path, dir_path: &Path) -> Result<Vec<HgignoreFilte
                 }
             });
     };
+
+    being_read.pop();
 
     match err.is_empty() {
         true => Ok(result),
